@@ -690,7 +690,7 @@ func runC18(c *Ctx) {
 	importRules(c, runC11, map[string]string{"C11.R4": "C18.R8"}, map[string]string{"C18.R8": "a hosts line is retrieved from a file-backed list exactly as it was scanned (shared with C11.R4)"})
 	importRules(c, runC11, map[string]string{"C11.R2": "C18.R8"}, nil)
 	importRules(c, runC12, map[string]string{"C12.R7": "C18.R8"}, nil)
-	importRules(c, runC02, map[string]string{"C02.R4": "C18.R9", "C02.R2": "C18.R9"}, map[string]string{"C18.R9": "the DNS engine keys every name and reports a host rule under the family of its own address (shared with C02.R2/R4)"})
+	importRules(c, runC02, map[string]string{"C02.R4": "C18.R9", "C02.R2": "C18.R9", "C02.R1": "C18.R9"}, map[string]string{"C18.R9": "the DNS engine keys every name and reports a host rule under the family of its own address (shared with C02.R2/R4)"})
 
 	// ---------- R7 ----------
 	rhr := c.P.Method("filterlist", "RuleStorage", "RetrieveHostRule")
